@@ -13,7 +13,7 @@ import GormModel.Gen.GuardFacts
 import GormModel.Gen.GuardWhereFacts
 import GormModel.Lemmas.DeleteKeys
 import GormModel.Lemmas.Scopes
-import GormModel.Lemmas.UpdateKeys
+import GormModel.Lemmas.UpdateKeysGuard
 import GormModel.Lemmas.GuardMode
 import GormModel.Lemmas.AssocGuard
 namespace Gorm
